@@ -797,7 +797,9 @@ def run_property(chk, prop, laws, quick_gen=300, thorough_gen=4000, scns=None, n
                     lines.append("engine\tledger\t" + pj(mon.ledger))
                     line_meta.append(("ledger", case, s.snapshot_volatile()))
                     for i, fs in enumerate(mon.steps):
-                        if any(f[0] == "a" for f in fs) and any(f[0] == "p" for f in fs):
+                        # (a step that cancels a child execution's tasks handles two executions' events, each acknowledged
+                        # after its own consequences: [p a p a] — the one-event ordering law is not asked of those scenarios)
+                        if any(f[0] == "a" for f in fs) and any(f[0] == "p" for f in fs) and not scn.extra.get("machines"):
                             lines.append("engine\tordered\t" + pj(fs))
                             oc = dict(case, step=i, step_kind=trace[i] if i < len(trace) else None)
                             ordered_cases.append((oc, case))
